@@ -230,6 +230,25 @@ func c17Slash(kind string, c *c17Case, path string) (mw echo.MiddlewareFunc, tok
 	return mw, wJoin(k, wBool(false), wBool(skipped), wInt(c.Code)), c.Code, skipped
 }
 
+// c17SlashBuild: c17Slash with the constructor's panic caught.  A constructor that refuses a RedirectCode which is
+// neither 0 (forward) nor 300..308 builds no middleware: that configuration never produced a redirect anyway
+// (Context.Redirect rejects the code: 500 for every request that needs a change), and the property speaks about the
+// redirects that are produced.  refused: the case has nothing to observe.  A panic for a valid code is a failure.
+func c17SlashBuild(kind string, c *c17Case) (mw echo.MiddlewareFunc, refused bool, failure string) {
+	defer func() {
+		if p := recover(); p != nil {
+			mw = nil
+			if c.Ctor != "plain" && c.Code != 0 && (c.Code < 300 || c.Code > 308) {
+				refused = true
+			} else {
+				failure = fmt.Sprintf("panic in the %s-trailing-slash constructor for RedirectCode %d: %v", kind, c.Code, p)
+			}
+		}
+	}()
+	mw, _, _, _ = c17Slash(kind, c, "")
+	return mw, false, ""
+}
+
 // ---------- the model-free oracle: how a browser reads a Location value ----------
 
 // c17Browser applies the preprocessing of the WHATWG URL parser (strip leading and trailing
@@ -273,10 +292,21 @@ func c17Browser(loc string) (view string, scheme, authority, pathAbs bool) {
 	return string(v), scheme, authority, pathAbs
 }
 
-// c17Ordinary: a path for which the second clause of the property fixes the exact target:
-// it starts with `/` followed by a character that is none of `/ \ TAB CR LF`.
+// c17Ordinary: a path for which the second clause of the property fixes the exact target: it starts with `/`
+// followed by a character that is neither `/` nor `\`, and it contains no control character anywhere (C0 controls - TAB,
+// CR, LF among them - and DEL).  The first clause of the property says how a browser reads tab / CR / LF / leading control
+// characters: a path that carries such bytes belongs to the hostile alphabet, not to the "ordinary paths", and how they
+// are represented in a Location value (kept, dropped, escaped) is left to clause 1, which judges every Location.
 func c17Ordinary(p string) bool {
-	return len(p) >= 2 && p[0] == '/' && !strings.ContainsRune("/\\\t\r\n", rune(p[1]))
+	if len(p) < 2 || p[0] != '/' || p[1] == '/' || p[1] == '\\' {
+		return false
+	}
+	for i := 0; i < len(p); i++ {
+		if p[i] < 0x20 || p[i] == 0x7f {
+			return false
+		}
+	}
+	return true
 }
 
 // ---------- Run ----------
@@ -347,7 +377,13 @@ func c17Run(ci any) (res Result) {
 	route, disable, ti := "", false, 0
 	switch c.Comp {
 	case "add", "remove":
-		mw, _, _, _ := c17Slash(c.Comp, c, "")
+		mw, refused, failure := c17SlashBuild(c.Comp, c)
+		if refused {
+			return Result{Tags: append(caseTags, "ctor:refuses-invalid-redirect-code(no redirects to judge)")}
+		}
+		if failure != "" {
+			return Result{Obs: "panic", Oracle: failure, Tags: caseTags}
+		}
 		slashToks = func(path string) (string, int, bool) {
 			_, toks, ec, sk := c17Slash(c.Comp, c, path)
 			return toks, ec, sk
@@ -382,7 +418,13 @@ func c17Run(ci any) (res Result) {
 			route = "/" + route
 		}
 		if c.Pre == "add" || c.Pre == "remove" {
-			mw, _, _, _ := c17Slash(c.Pre, c, "")
+			mw, refused, failure := c17SlashBuild(c.Pre, c)
+			if refused {
+				return Result{Tags: append(caseTags, "ctor:refuses-invalid-redirect-code(no redirects to judge)")}
+			}
+			if failure != "" {
+				return Result{Obs: "panic", Oracle: failure, Tags: caseTags}
+			}
 			slashToks = func(path string) (string, int, bool) {
 				_, toks, ec, sk := c17Slash(c.Pre, c, path)
 				return toks, ec, sk
@@ -762,8 +804,13 @@ var (
 	c17Ctl     = []c17Tok{{"\x00", "%00"}, {"\x01", "%01"}, {"\x0b", "%0b"}, {"\x0c", "%0c"}, {"\x1f", "%1f"}, {" ", "%20"}, {" ", " "}, {"\x7f", "%7f"}, {"\xa0", "%a0"}, {"\xc2\xa0", "%c2%a0"}, {"\x85", "%85"}}
 	c17Hosts   = []c17Tok{{"example.com", "example.com"}, {"evil.com", "evil.com"}, {"evil.com:80", "evil.com:80"}, {"user@evil.com", "user@evil.com"}, {"[::1]", "[::1]"},
 		{"localhost", "localhost"}, {"a", "a"}, {"a/b", "a/b"}, {"a/f.txt", "a/f.txt"}, {"s", "s"}, {"g/s", "g/s"}, {"example.com/x.txt", "example.com/x.txt"}, {"evil.com/sub", "evil.com/sub"},
-		{"http:", "http:"}, {"javascript:alert(1)", "javascript:alert(1)"}, {"e", "e"}, {"", ""}}
-	c17Tails   = []c17Tok{{"", ""}, {"", ""}, {"/", "/"}, {"/..", "/.."}, {"/..", "/%2e%2e"}, {"/..", "/%2E."}, {"/.", "/."}, {"/x", "/x"}, {"//", "//"}, {"/", "%2f"}, {"?x", "%3fx"}, {"#f", "%23f"}, {"\t", "%09"}, {"%", "%25"}}
+		{"http:", "http:"}, {"javascript:alert(1)", "javascript:alert(1)"}, {"e", "e"}, {"", ""},
+		// names with a meaning of their own for a file server: the index page (the file a directory request is answered
+		// with, and the name http.FileServer redirects away from) and plain files of the trees
+		{"index.html", "index.html"}, {"a/index.html", "a/index.html"}, {"evil.com/index.html", "evil.com/index.html"}, {"f.txt", "f.txt"},
+		{"index.html", "index%2Ehtml"}, {"Index.html", "Index.html"}}
+	c17Tails = []c17Tok{{"", ""}, {"", ""}, {"/", "/"}, {"/..", "/.."}, {"/..", "/%2e%2e"}, {"/..", "/%2E."}, {"/.", "/."}, {"/x", "/x"}, {"//", "//"}, {"/", "%2f"}, {"?x", "%3fx"}, {"#f", "%23f"}, {"\t", "%09"}, {"%", "%25"},
+		{"/index.html", "/index.html"}, {"/index.html", "/index.htm%6c"}, {"index.html", "index.html"}, {"/index.html/", "/index.html/"}, {"/f.txt", "/f.txt"}}
 	c17Queries = []string{"", "", "", "a=1", "next=//evil.com", "/\t/evil.com", "x=%2f%2f&y=2", "//evil.com", "?", "\\evil.com",
 		// queries url.ParseQuery rejects or reads in surprising ways: they are to be copied, not parsed
 		"discount=100%", "%", "%zz", "a=%2", "a=1;b=2", ";", "=", "&&", "a=1&&b", "a=b=c", "q=first", "q=second", "+", "a[]=1&a[]=2", "\x00", "k=" + strings.Repeat("v", 300)}
@@ -859,6 +906,71 @@ func c17GenPath(r *rand.Rand, base, baseEnc string, wantDir bool) (dec, enc stri
 	return d.String(), en.String()
 }
 
+// c17GenFilePath: a request that names a regular FILE of the tree - mostly one of its index pages, the one file
+// name the static handler and every file server give a meaning of their own - through a prefix that looks like
+// another host and is cancelled again by dot segments: `//example.com/%2e%2e/index.html`, `/\\evil.com/a/../../a/index.html`.
+// The unchanged handler serves the file; anything that answers such a request with a redirect built from the
+// request path has to get that target past the sanitiser.
+func c17GenFilePath(r *rand.Rand, t c17Tree, base, baseEnc string) (dec, enc string) {
+	var d, en strings.Builder
+	add := func(t c17Tok) { d.WriteString(t.dec); en.WriteString(t.enc) }
+	add(c17Tok{"/", "/"})
+	add(c17Tok{base, baseEnc})
+	mark := d.Len()
+	for i, n := 0, r.Intn(4); i < n; i++ {
+		if r.Intn(3) != 0 {
+			add(c17Pick(r, c17Slashes))
+		} else {
+			add(c17Pick(r, c17Ignored))
+		}
+	}
+	if r.Intn(5) != 0 {
+		add(c17Pick(r, c17Hosts))
+	}
+	// climb back to the mount point (mostly exactly; sometimes one short or one too many)
+	segs := 0
+	for _, el := range strings.Split(d.String()[mark:], "/") {
+		if el != "" && el != "." {
+			segs++
+		}
+	}
+	if k := r.Intn(8); k == 0 && segs > 0 {
+		segs--
+	} else if k == 1 {
+		segs++
+	}
+	for i := 0; i < segs; i++ {
+		switch r.Intn(4) {
+		case 0:
+			add(c17Tok{"/..", "/%2e%2e"})
+		case 1:
+			add(c17Tok{"/..", "/.%2E"})
+		default:
+			add(c17Tok{"/..", "/.."})
+		}
+	}
+	f := t.files[r.Intn(len(t.files))]
+	if r.Intn(3) != 0 { // mostly an index page
+		var idx []string
+		for _, x := range t.files {
+			if x == "index.html" || strings.HasSuffix(x, "/index.html") {
+				idx = append(idx, x)
+			}
+		}
+		if len(idx) > 0 {
+			f = idx[r.Intn(len(idx))]
+		}
+	}
+	if d.Len() > 0 && !strings.HasSuffix(d.String(), "/") || r.Intn(6) == 0 {
+		add(c17Pick(r, c17Slashes[:4]))
+	}
+	add(c17Tok{f, f})
+	if r.Intn(8) == 0 {
+		add(c17Tok{"/", "/"})
+	}
+	return d.String(), en.String()
+}
+
 func c17GenCase(r *rand.Rand) *c17Case {
 	c := &c17Case{}
 	switch r.Intn(4) {
@@ -939,6 +1051,12 @@ func c17GenCase(r *rand.Rand) *c17Case {
 		if name == "." {
 			name = ""
 		}
+		if r.Intn(3) == 0 { // … or of its regular files (the index pages among them), sometimes with a slash behind it
+			name = t.files[r.Intn(len(t.files))]
+			if r.Intn(6) == 0 {
+				name += "/"
+			}
+		}
 		var d, en strings.Builder
 		d.WriteString("/" + base)
 		en.WriteString("/" + baseEnc)
@@ -960,6 +1078,9 @@ func c17GenCase(r *rand.Rand) *c17Case {
 			}
 		}
 		dec, enc = d.String(), en.String()
+	}
+	if wantDir && r.Intn(7) == 0 {
+		dec, enc = c17GenFilePath(r, c17Trees[c.Tree], base, baseEnc)
 	}
 	// the two request paths of a real server that do not start with "/": "" (absolute-form
 	// target without a path, CONNECT) and "*" (OPTIONS *)
@@ -1329,6 +1450,22 @@ func c17Mutate(r *rand.Rand, ci any) []any {
 			out = append(out, &d)
 		}
 	}
+	// static routes: the regular files of the tree (index pages included) behind the same prefixes, cancelled by dot
+	// segments, at a root mount
+	if c.Comp == "static" || c.Comp == "gstatic" {
+		t := c17Trees[((c.Tree%len(c17Trees))+len(c17Trees))%len(c17Trees)]
+		for _, pre := range []string{"//example.com/..", "/\\example.com/..", "/\t/example.com/..", "///example.com/../a/.."} {
+			for _, f := range t.files {
+				for _, tail := range []string{"", "/"} {
+					d := *c
+					d.More, d.Method, d.Query, d.ForceQuery, d.Pre = nil, "", "", false, ""
+					d.Group, d.Prefix = "", "/"
+					d.Path, d.RawPath = a2bstr(pre+"/"+f+tail), ""
+					out = append(out, &d)
+				}
+			}
+		}
+	}
 	// a mount point below a path parameter: the hostile value goes where the parameter is
 	if (c.Comp == "static" || c.Comp == "gstatic") && strings.Contains(c.Group+c.Prefix, ":") {
 		pattern := strings.TrimPrefix(c.Prefix, "/")
@@ -1345,7 +1482,7 @@ func c17Mutate(r *rand.Rand, ci any) []any {
 					es[i] = sg
 				}
 			}
-			for _, tail := range []string{"", "a", "evil.com", "g", "-"} {
+			for _, tail := range []string{"", "a", "evil.com", "g", "-", "index.html", "a/index.html", "evil.com/index.html", "f.txt"} {
 				dec, enc := "/"+strings.Join(segs, "/"), "/"+strings.Join(es, "/")
 				if tail == "-" { // the mount point itself, without its trailing slash
 					dec, enc = strings.TrimSuffix(dec, "/"), strings.TrimSuffix(enc, "/")
@@ -1597,7 +1734,7 @@ func c17Tolerable(ci any, implObs, modelObs string) bool {
 func init() {
 	register(&Prop{
 		ID:        "C17",
-		Rule:      "request URLs built from tokens: first char `/` (rarely `\\` or none), optional static route prefix, a leading mix of 0-4 of {/, \\, %2f, %5c, TAB, CR, LF (raw or escaped), other C0 controls, space, DEL, NBSP}, a host-like or tree segment, `..` climbs (plain/escaped) back to a directory for the static components, tails, +/- query; URL.Path/RawPath as a real server would set them when the target parses, set directly otherwise; x {AddTrailingSlash, RemoveTrailingSlash (RedirectCode 300..308, 0 = forward, invalid codes; 1 in 10 built with the constructor without config, 1 in 10 with a Skipper: nil-equivalent DefaultSkipper / always / paths containing 'example'), Echo.Static, Group.Static over two real directory trees} x request method (GET for half of the slash cases and 4/5 of the static cases, else HEAD/POST/PUT/PATCH/DELETE/OPTIONS/PROPFIND/X-CUSTOM/lower-case get; the model ignores the method); static routes: mount point below a literal prefix, the root, or a PATH PARAMETER (`/:site/`, `/:site/assets`, `/:a/:b/`, groups `/:site`, `/g/:site`: the parameter segments filled with {acme, \\example.com, %5Cexample.com, %2Fexample.com, %09%5Cexample.com, empty, ...}), half of them registered through another entry point (Static with a relative root, StaticFS with os.DirFS / MustSubFS / fstest.MapFS, GET or Add with StaticDirectoryHandler with and without path unescaping), 1 in 8 with a slash middleware under e.Pre in front of the route (mostly forwarding); one case in eight is a plain path for the 'ordinary paths' clause; queries include ones url.ParseQuery rejects (`discount=100%`, `%zz`, `a=1;b=2`, `;`, `=`, `&&`, NUL, 300 bytes); 1 request in 5 names another protocol version (HTTP/1.0 - half of them without Host header -, HTTP/2.0, HTTP/0.9), 1 in 10 of the others another Host header, 1 in 20 came over TLS; a quarter of the slash cases and an eighth of the static cases are SEQUENCES of 2-4 requests through one application (the same path with another query / without query, another path with the same query, exact repeats), each request judged on its own; URL parts that are present but empty: a quarter of the query-less targets end in a bare `?` (URL.ForceQuery), 1 in 15 RawPath == Path, 1 in 25 a fragment, 1 in 25 an absolute-form target (URL.Host); 1 static case in 12 asks for the mount point itself without its slash; plus, exhaustively, every string of length 1-4 over {/, \\, TAB, LF, e} starting with / or \\ through both slash middlewares without query, with query and with a bare `?` (1872 cases). non-trivial = a redirect was produced and the unsanitised target (path±/ + query) would be read by a browser as an authority (another host); distinct = distinct model op lines",
+		Rule:      "request URLs built from tokens: first char `/` (rarely `\\` or none), optional static route prefix, a leading mix of 0-4 of {/, \\, %2f, %5c, TAB, CR, LF (raw or escaped), other C0 controls, space, DEL, NBSP}, a host-like or tree segment, `..` climbs (plain/escaped) back to a directory for the static components, tails, +/- query; URL.Path/RawPath as a real server would set them when the target parses, set directly otherwise; x {AddTrailingSlash, RemoveTrailingSlash (RedirectCode 300..308, 0 = forward, invalid codes; 1 in 10 built with the constructor without config, 1 in 10 with a Skipper: nil-equivalent DefaultSkipper / always / paths containing 'example'), Echo.Static, Group.Static over two real directory trees} x request method (GET for half of the slash cases and 4/5 of the static cases, else HEAD/POST/PUT/PATCH/DELETE/OPTIONS/PROPFIND/X-CUSTOM/lower-case get; the model ignores the method); static routes: mount point below a literal prefix, the root, or a PATH PARAMETER (`/:site/`, `/:site/assets`, `/:a/:b/`, groups `/:site`, `/g/:site`: the parameter segments filled with {acme, \\example.com, %5Cexample.com, %2Fexample.com, %09%5Cexample.com, empty, ...}), half of them registered through another entry point (Static with a relative root, StaticFS with os.DirFS / MustSubFS / fstest.MapFS, GET or Add with StaticDirectoryHandler with and without path unescaping), 1 in 8 with a slash middleware under e.Pre in front of the route (mostly forwarding); one case in eight is a plain path for the 'ordinary paths' clause; queries include ones url.ParseQuery rejects (`discount=100%`, `%zz`, `a=1;b=2`, `;`, `=`, `&&`, NUL, 300 bytes); 1 request in 5 names another protocol version (HTTP/1.0 - half of them without Host header -, HTTP/2.0, HTTP/0.9), 1 in 10 of the others another Host header, 1 in 20 came over TLS; a quarter of the slash cases and an eighth of the static cases are SEQUENCES of 2-4 requests through one application (the same path with another query / without query, another path with the same query, exact repeats), each request judged on its own; URL parts that are present but empty: a quarter of the query-less targets end in a bare `?` (URL.ForceQuery), 1 in 15 RawPath == Path, 1 in 25 a fragment, 1 in 25 an absolute-form target (URL.Host); 1 static case in 12 asks for the mount point itself without its slash; the names a file server gives a meaning of their own - the index page `index.html` (plain, escaped, other case, with a slash behind it) and the regular files of the trees - are among the host-like segments and tails, a third of the 'exactly one name of the tree' requests name a file, and 1 static case in 7 asks for a regular file (2 in 3: an index page) through a prefix that looks like another host and is cancelled by dot segments (`//example.com/%2e%2e/index.html`); Mutate adds every file of the tree behind the classic hostile prefixes at a root mount and below parameter mounts; a slash-middleware constructor that refuses an invalid RedirectCode leaves nothing to judge (tagged); plus, exhaustively, every string of length 1-4 over {/, \\, TAB, LF, e} starting with / or \\ through both slash middlewares without query, with query and with a bare `?` (1872 cases). non-trivial = a redirect was produced and the unsanitised target (path±/ + query) would be read by a browser as an authority (another host); distinct = distinct model op lines",
 		New:       func() any { return &c17Case{} },
 		Gen:       c17Gen,
 		Run:       c17Run,
